@@ -24,7 +24,7 @@ use crate::{
         runner::{catch, Check, Meta, Tier, Verdict, Viol},
         stats::Stats,
     },
-    opcirc::{run_mock, CellEdit, MockVerdict},
+    opcirc::{run_mock, CellEdit, LateEdit, MockVerdict},
     props::opcheck::gen_plans,
     util::{big_to_fq, fq_to_big, uniform_fq, Fe},
 };
@@ -80,6 +80,8 @@ pub struct Scn {
     pub fault_seed: u64,
     pub io: IoPlan,
     pub only: Option<Vec<Vec<CellEdit>>>,
+    #[serde(default)]
+    pub only_late: Option<Vec<LateEdit>>,
 }
 
 fn leak(s: &str) -> &'static str {
@@ -667,6 +669,7 @@ impl Check for C18 {
             fault_seed: rng.u64(),
             io: IoPlan::benign(rng),
             only: None,
+            only_late: None,
         };
         serde_json::to_value(scn).unwrap()
     }
@@ -682,10 +685,12 @@ impl Check for C18 {
         let mut out = vec![];
         if let Some(h) = &viol.hint {
             if let Ok(plan) = serde_json::from_value::<Vec<CellEdit>>(h.clone()) {
-                out.push(Scn { only: Some(vec![plan]), ..s.clone() });
+                out.push(Scn { only: Some(vec![plan]), only_late: Some(vec![]), ..s.clone() });
+            } else if let Some(le) = h.get("late").and_then(|l| serde_json::from_value::<LateEdit>(l.clone()).ok()) {
+                out.push(Scn { only: Some(vec![]), only_late: Some(vec![le]), ..s.clone() });
             }
         } else if s.only.is_none() {
-            out.push(Scn { only: Some(vec![]), ..s.clone() });
+            out.push(Scn { only: Some(vec![]), only_late: Some(vec![]), ..s.clone() });
         }
         // drop instructions from the end (keeping loads and their publish)
         let p: serde_json::Value = serde_json::from_str(&s.program).unwrap();
@@ -932,6 +937,28 @@ fn run(s: &Scn, st: &mut Stats) -> Verdict {
         Some(p) => p.clone(),
         None => gen_plans(&mut Prng::new(s.fault_seed, "faults"), &honest.trace, s.n_plans),
     };
+    // judges the public inputs an accepted Byzantine execution binds; the counters are returned as labels
+    let judge = |what: &str, bound: &[Fq]| -> Result<&'static str, Viol> {
+        match decode_loads(&tys, bound) {
+            Err(e) if e == "NONCANONICAL-SCALAR" => Ok("byzantine_noncanonical_scalar_instance"),
+            Err(e) => Err(Viol::new("Unsound", "Unsound:inadmissible-load", format!("with {what} the circuit is satisfied although {e}"))),
+            Ok((loads, _)) => match catch(|| rel.public_inputs(witness_map(&loads))) {
+                Ok(Ok(p2)) => {
+                    let e2 = ZkirRelation::format_instance(&p2).unwrap_or_default();
+                    if e2 != bound {
+                        return Err(Viol::new(
+                            "Unsound",
+                            "Unsound:published-values",
+                            format!("with {what} the circuit is satisfied with public inputs that differ from what the interpreter computes from the loads it binds (first difference at {:?})", e2.iter().zip(bound).position(|(a, b)| a != b)),
+                        ));
+                    }
+                    Ok("byzantine_accepted_consistent")
+                }
+                Ok(Err(e)) => Err(Viol::new("Unsound", "Unsound:interpreter-rejects", format!("with {what} the circuit is satisfied, but the interpreter fails on the loads it binds: {e:?}"))),
+                Err(_) => Ok("byzantine_interpreter_panicked"),
+            },
+        }
+    };
     for plan in &plans {
         let r = run_mock(k, &known(), plan, false);
         if r.fired == 0 {
@@ -943,28 +970,32 @@ fn run(s: &Scn, st: &mut Stats) -> Verdict {
             st.inc("byzantine_rejected");
             continue;
         }
-        let hint = serde_json::to_value(plan).unwrap();
-        match decode_loads(&tys, &r.bound_plain) {
-            Err(e) if e == "NONCANONICAL-SCALAR" => st.inc("byzantine_noncanonical_scalar_instance"),
-            Err(e) => {
-                return Verdict::Violation(Viol::new("Unsound", "Unsound:inadmissible-load", format!("with the Byzantine edit {plan:?} the circuit is satisfied although {e}")).with_hint(hint))
-            }
-            Ok((loads, _)) => match catch(|| rel.public_inputs(witness_map(&loads))) {
-                Ok(Ok(p2)) => {
-                    let e2 = ZkirRelation::format_instance(&p2).unwrap_or_default();
-                    if e2 != r.bound_plain {
-                        return Verdict::Violation(
-                            Viol::new("Unsound", "Unsound:published-values", format!("with the Byzantine edit {plan:?} the circuit is satisfied with public inputs that differ from what the interpreter computes from the loads it binds (first difference at {:?})", e2.iter().zip(&r.bound_plain).position(|(a, b)| a != b))).with_hint(hint),
-                        );
-                    }
-                    st.inc("byzantine_accepted_consistent");
-                }
-                Ok(Err(e)) => {
-                    return Verdict::Violation(Viol::new("Unsound", "Unsound:interpreter-rejects", format!("with the Byzantine edit {plan:?} the circuit is satisfied, but the interpreter fails on the loads it binds: {e:?}")).with_hint(hint))
-                }
-                Err(_) => st.inc("byzantine_interpreter_panicked"),
-            },
+        match judge(&format!("the Byzantine edit {plan:?}"), &r.bound_plain) {
+            Ok(label) => st.inc(label),
+            Err(v) => return Verdict::Violation(v.with_hint(serde_json::to_value(plan).unwrap())),
         }
+    }
+    // late edits: a value substituted on a whole copy cycle after honest witness generation
+    let lates: Vec<LateEdit> = match (&s.only_late, &s.only) {
+        (Some(l), _) => l.clone(),
+        (None, Some(_)) => vec![],
+        (None, None) => crate::props::opcheck::gen_lates(&mut Prng::new(s.fault_seed, "late"), honest.prover.as_ref(), &honest.trace, 4 * s.n_plans),
+    };
+    let mut labels: Vec<&'static str> = vec![];
+    let r = crate::props::opcheck::late_stage(k, &known, &lates, s.fault_seed, &format!("{pd}"), st, &mut |le, n_cycle, made, bp| {
+        match judge(&format!("advice cell (column {}, row {}) and its copy cycle ({n_cycle} cells) replaced by {:?} after honest witness generation{}", le.col, le.row, le.val, if made > 0 { format!(" and {made} local repair(s)") } else { String::new() }), bp) {
+            Ok(label) => {
+                labels.push(label);
+                None
+            }
+            Err(v) => Some(v),
+        }
+    });
+    for l in labels {
+        st.inc(l);
+    }
+    if let Some(v) = r {
+        return Verdict::Violation(v);
     }
     if st.samples.is_empty() {
         st.sample(0, json!({"program": serde_json::from_str::<serde_json::Value>(&text).unwrap(), "k": k, "off_circuit_ok": off.is_ok()}));
